@@ -1458,12 +1458,25 @@ func genExec(r *lib.Rng) Input {
 	for k := r.Range(1, 4); k > 0; k-- {
 		cur = push(Step{K: "derive", P: cur, Op: xop()})
 	}
+	orFirst := r.Chance(1, 6)
+	if orFirst {
+		// a handle whose first condition is an OR alternative: SQL generation reorders (Where.Build)
+		cur = push(Step{K: "derive", P: cur, Op: &Op{K: "x_or", Names: []string{col()}, N: int64(r.Range(0, 6))}})
+		cur = push(Step{K: "derive", P: cur, Op: &Op{K: "x_where", Names: []string{col()}, N: int64(r.Range(0, 4))}})
+	}
 	xsess := func() string {
 		return lib.Pick(r, []string{"plain", "plain", "ctx", "debug", "skiphooks", "skiphooks", "dryrun", "queryfields", "fullsave",
 			"allowglobal", "batchsize", "skipdeftx", "nonested", "skiphooks+queryfields", "dryrun+skiphooks", "queryfields+allowglobal+batchsize"})
 	}
 	h := push(Step{K: "sess", P: cur, Sess: lib.Pick(r, []string{"plain", "plain", "plain", "ctx", "debug", "queryfields", "skiphooks"})})
 	hs := []int{h}
+	if orFirst {
+		// executed from the handle, then the handle is a grouped condition of another chain, then used again
+		push(Step{K: "finish", P: h, Fin: xfin()})
+		c := push(Step{K: "derive", P: 0, Op: &Op{K: "x_model", Names: []string{lib.Pick(r, []string{"T", "U"})}}})
+		c = push(Step{K: "derive", P: c, Op: &Op{K: "x_where_group", H: h, N: int64(r.Intn(3))}})
+		push(Step{K: "finish", P: c, Fin: xfin()})
+	}
 	for k := r.Range(4, 9); k > 0; k-- {
 		from := lib.Pick(r, hs)
 		switch r.Intn(10) {
